@@ -57,6 +57,8 @@ def run(ck):
             mat = None
         elif tk == 'diag':
             mat = np.abs(rng.standard_normal(d)) + 0.2
+            if (i // 3) % 2 == 1:
+                g_z = (i // 6) % ng; mat[cat_idx[g_z][1 + (i // 12) % (levels[g_z] - 1)]] = 0.0          # a level whose weight was learned to be exactly 0 (absent from the training rows)
         else:
             mat = np.zeros((d, d))
             for idx in [num_idx] + cat_idx:
